@@ -89,7 +89,7 @@ Record config := mk_config {
 Inductive lerr :=
 | EDeserialize | EAddrInUse | EMissing | EIncompatible | EWrongFrontendProtocol | EInvalidFrontendConfig
 | EInvalidAlpn | EDisableHttp11 | EBufferSize | EHstsEnabledRequired | EHstsOnPlainHttp | EFileRead
-| EInvalidHealthCheck | EDuplicateFrontend | EDuplicateBackend.
+| EInvalidHealthCheck | EDuplicateFrontend | EDuplicateBackend | EInvalidCertificate | EInvalidSozuIdHeader.
 
 Inductive res (A : Type) := Ok (a : A) | Err (e : lerr).
 Arguments Ok {A} a.
@@ -160,6 +160,25 @@ Definition resolve_alpn (l : ldecl) : res (list bytes) :=
     else Ok default_alpn
   end.
 
+(** [validate_sozu_id_header] (state.rs), applied by the loader to the listener's
+    [sozu_id_header] (the 8th pass-through knob): a non-empty RFC 9110 token that is not the
+    name of a field the proxy owns *)
+Definition is_tchar (n : N) : bool :=
+  ((48 <=? n) && (n <=? 57) || (65 <=? n) && (n <=? 90) || (97 <=? n) && (n <=? 122))%N || existsb (N.eqb n) sid_tchar_specials.
+Definition lower_byte (n : N) : N := if ((65 <=? n) && (n <=? 90))%N then (n + 32)%N else n.
+Definition valid_sid (b : bytes) : bool :=
+  negb (match b with [] => true | _ => false end) && forallb is_tchar b && negb (memb (map lower_byte b) sid_reserved).
+Definition sid_ok (l : ldecl) : bool :=
+  match nth 7 (ld_pay l) (TN (-1)) with TB b => valid_sid b | _ => true end.
+
+(** listener-level certificate: pool index (certificate and key), -1 none, -5 a file that cannot
+    be read, -6 a file that holds no certificate, <= -100 a certificate without its key *)
+Definition listener_cert_check (l : ldecl) : option lerr :=
+  if ld_cert l =? -5 then Some EFileRead
+  else if ld_cert l =? -6 then Some EInvalidCertificate
+  else if ld_cert l <=? -100 then Some EMissing
+  else None.
+
 Definition buffer_of (d : decl) : Z := dflt (d_buffer d) default_buffer_size.
 
 (** [to_http] / [to_tls] / [to_tcp] / [to_udp] with [Some(&self.built)] *)
@@ -172,17 +191,21 @@ Definition build_listener (d : decl) (l : ldecl) : res lst :=
   let sticky := Some (match ld_sticky l with Some s => s | None => default_sticky_name end) in
   if ld_proto l =? 0 then
     if negb (ld_hsts l =? -1) then Err EHstsOnPlainHttp
+    else if negb (sid_ok l) then Err EInvalidSozuIdHeader
     else Ok (mk_lst 0 (ld_addr l) false expect (ld_public l) ft bt ct rt sticky (-1) (-1) (-1) (-1) (-1) (-1) [] (ld_pay l) (ld_ext l))
   else if ld_proto l =? 1 then
     match resolve_alpn l with
     | Err e => Err e
     | Ok alpn =>
-      if ld_hsts l =? 2 then Err EHstsEnabledRequired
+      match listener_cert_check l with Some e => Err e | None =>
+      if negb (sid_ok l) then Err EInvalidSozuIdHeader
+      else if ld_hsts l =? 2 then Err EHstsEnabledRequired
       else
         let age := if (ld_hsts l =? 1) && (ld_hsts_age l <? 0) then default_hsts_max_age else ld_hsts_age l in
         let age := if ld_hsts l =? -1 then -1 else age in
         Ok (mk_lst 1 (ld_addr l) false expect (ld_public l) ft bt ct rt sticky (ld_dh11 l) (ld_hsts l) age (-1) (-1)
                    (ld_cert l) alpn (ld_pay l) (ld_ext l))
+      end
     end
   else if ld_proto l =? 2 then
     Ok (mk_lst 2 (ld_addr l) false expect (ld_public l) ft bt ct (-1) None (-1) (-1) (-1) (-1) (-1) (-1) []
@@ -273,6 +296,7 @@ Definition http_front_conv (cid : bytes) (f : fdecl) : res (front * Z * bool) :=
   | None => Err EMissing
   | Some host =>
     if fd_cert f =? -5 then Err EFileRead
+    else if fd_cert f =? -6 then Err EInvalidCertificate
     else if negb (Bool.eqb (fd_key f) (negb (fd_cert f =? -1))) then Err EMissing   (* certificate and key come together *)
     else
       let kind := match fd_path f with None => 0 | Some _ => dflt (fd_kind f) 0 end in
